@@ -69,9 +69,12 @@ def batch_csv_read_datafiles(path: Path, batch_csv: Path) -> list[Path]:
     datafiles = []
     for _id, datafile, result in batch_log:
         if result == "Pass":
-            datafiles.append(
-                path.joinpath(datafile[max(map(datafile.rfind, "\\/")) + 1 :])
+            datafile_path = path.joinpath(
+                datafile[max(map(datafile.rfind, "\\/")) + 1 :]
             )
+            if datafile_path in datafiles:  # re-acquired, keep the last entry
+                datafiles.remove(datafile_path)
+            datafiles.append(datafile_path)
     return datafiles
 
 
